@@ -583,9 +583,12 @@ def result_kind(al, res):
   return None
 
 
-def observe_result(al, res, cnt, conv, cap=CAP):
-  """Observation of what a broadcasting function returned."""
+def observe_result(al, res, cnt, conv, cap=CAP, scalar_in=False):
+  """Observation of what a broadcasting function returned (scalar_in: the broadcast argument was
+  not a container, so the result is observed as one value, whatever its type)."""
   k = result_kind(al, res)
+  if scalar_in and type(res) in (tuple, list):
+    k = None
   if k is None:
     try:
       return {"scalar": conv(res)}
@@ -752,11 +755,16 @@ def unwrapped(al, fname):
   return getattr(fn, "__wrapped__", None)
 
 
-def math_oracle(al, fname, x, extra_args, extra_kw, tbl):
-  """Fills tbl with the applications the specification needs for element x; returns nothing."""
+def math_oracle(al, fname, x, extra_args, extra_kw, tbl, pname=None):
+  """Fills tbl with the applications the specification needs for element x; returns nothing.
+  pname: the element is passed by keyword under that name."""
   def add(fn_name, f, xa, ea, ekw):
-    key = ["call", ["v", fn_name, 0], [S.cval(xa)] + [S.cval(e) for e in ea], [[k, S.cval(v)] for k, v in ekw.items()]]
-    val = S.apply_safely(f, xa, *ea, **ekw)
+    if pname is None:
+      key = ["call", ["v", fn_name, 0], [S.cval(xa)] + [S.cval(e) for e in ea], [[k, S.cval(v)] for k, v in ekw.items()]]
+      val = S.apply_safely(f, xa, *ea, **ekw)
+    else:
+      key = ["call", ["v", fn_name, 0], [], [[pname, S.cval(xa)]] + [[k, S.cval(v)] for k, v in ekw.items()]]
+      val = S.apply_safely(f, **dict([(pname, xa)] + list(ekw.items())))
     tbl.append([key, val])
     return val
   if fname == "ln":
@@ -819,16 +827,18 @@ def run_math(c):
   else:
     obj, seen, cnt = make_container(al, c["kind"], xs)
     desc = {"kind": c["kind"], "vals": [S.cval(v) for v in seen]}
+  # the keyword name is read from the function itself (first parameter), not from the translator
+  fn = getattr(al, fname)
+  pname = None
+  if c["form"] == "kw":
+    import inspect
+    pname = list(inspect.signature(fn).parameters)[0]
   tbl = []
   for v in (seen if seen is not None else [xs[0]]):
-    math_oracle(al, fname, v, ea, ekw, tbl)
-  # the keyword name is read from the function itself (first parameter), not from the translator
+    math_oracle(al, fname, v, ea, ekw, tbl, pname)
   out = {"tbl": tbl}
-  fn = getattr(al, fname)
   try:
     if c["form"] == "kw":
-      import inspect
-      pname = list(inspect.signature(fn).parameters)[0]
       out["args"] = []
       out["kw"] = [[pname, desc]] + [[k, {"scalar": S.cval(v)}] for k, v in ekw.items()]
       res = fn(**dict([(pname, obj)] + list(ekw.items())))
@@ -839,7 +849,7 @@ def run_math(c):
   except Exception as e:
     out["raise"] = type(e).__name__
     return out
-  out.update(observe_result(al, res, cnt, S.cval))
+  out.update(observe_result(al, res, cnt, S.cval, scalar_in=c["kind"] in ("scalar", "str")))
   return out
 
 
